@@ -36,13 +36,26 @@ import (
 // scaleFloats multiplies every float64 configuration field reachable from v by f (variants of the
 // non-period parameters: smoothing constants, percentages, multipliers, initial values).
 func scaleFloats(v reflect.Value, f float64, depth int) {
+	scaleFloatsOnce(v, f, depth, map[uintptr]bool{})
+}
+
+// scaleFloatsOnce: a value reachable twice (one strategy listed twice in a compound) is scaled once.
+func scaleFloatsOnce(v reflect.Value, f float64, depth int, seen map[uintptr]bool) {
 	if depth > 16 || f == 1 {
 		return
 	}
 	switch v.Kind() {
-	case reflect.Ptr, reflect.Interface:
+	case reflect.Ptr:
 		if !v.IsNil() {
-			scaleFloats(v.Elem(), f, depth+1)
+			if seen[v.Pointer()] {
+				return
+			}
+			seen[v.Pointer()] = true
+			scaleFloatsOnce(v.Elem(), f, depth+1, seen)
+		}
+	case reflect.Interface:
+		if !v.IsNil() {
+			scaleFloatsOnce(v.Elem(), f, depth+1, seen)
 		}
 	case reflect.Struct:
 		for i := 0; i < v.NumField(); i++ {
@@ -56,12 +69,12 @@ func scaleFloats(v reflect.Value, f float64, depth int) {
 			if fl.Kind() == reflect.Float64 {
 				fl.SetFloat(fl.Float() * f)
 			} else {
-				scaleFloats(fl, f, depth+1)
+				scaleFloatsOnce(fl, f, depth+1, seen)
 			}
 		}
 	case reflect.Slice:
 		for i := 0; i < v.Len(); i++ {
-			scaleFloats(v.Index(i), f, depth+1)
+			scaleFloatsOnce(v.Index(i), f, depth+1, seen)
 		}
 	}
 }
@@ -69,13 +82,25 @@ func scaleFloats(v reflect.Value, f float64, depth int) {
 // rescaleExported divides the period fields a caller can reach (exported fields, through exported
 // fields only) by k: a reconfiguration of a live instance between two calls.
 func rescaleExported(v reflect.Value, k int, depth int) {
+	rescaleExportedOnce(v, k, depth, map[uintptr]bool{})
+}
+
+func rescaleExportedOnce(v reflect.Value, k int, depth int, seen map[uintptr]bool) {
 	if depth > 16 || k <= 1 {
 		return
 	}
 	switch v.Kind() {
-	case reflect.Ptr, reflect.Interface:
+	case reflect.Ptr:
 		if !v.IsNil() {
-			rescaleExported(v.Elem(), k, depth+1)
+			if seen[v.Pointer()] {
+				return
+			}
+			seen[v.Pointer()] = true
+			rescaleExportedOnce(v.Elem(), k, depth+1, seen)
+		}
+	case reflect.Interface:
+		if !v.IsNil() {
+			rescaleExportedOnce(v.Elem(), k, depth+1, seen)
 		}
 	case reflect.Struct:
 		for i := 0; i < v.NumField(); i++ {
@@ -87,12 +112,12 @@ func rescaleExported(v reflect.Value, k int, depth int) {
 			if f.Kind() == reflect.Int && strings.Contains(sf.Name, "Period") {
 				f.SetInt(int64(max(1, (int(f.Int())+k-1)/k)))
 			} else {
-				rescaleExported(f, k, depth+1)
+				rescaleExportedOnce(f, k, depth+1, seen)
 			}
 		}
 	case reflect.Slice:
 		for i := 0; i < v.Len(); i++ {
-			rescaleExported(v.Index(i), k, depth+1)
+			rescaleExportedOnce(v.Index(i), k, depth+1, seen)
 		}
 	}
 }
